@@ -187,6 +187,31 @@ def run_case(scheme, cid, cfg, cls, db, acc, rng, fresh_object=False):
                     acc.violation(f"{short}:identifier-in-token", f"{scheme}: an identifier occurs in a serialized token",
                                   dict(case, keyword=w))
                     return True
+    # the index as it is serialized AFTER it has been searched (an index object that has been used is what a server
+    # writes back or hands on): still no keyword, no identifier
+    try:
+        for w in toks[:6]:
+            sch.Search(edb1, sch.TokenGen(key, w)).get_result_list()
+        raw_after = edb1.serialize()
+    except Exception as e:
+        acc.note(f"{short}: search / re-serialize failed in C04: {exc_site(e)}")
+        raw_after = None
+    if raw_after is not None:
+        acc.count("indexes_rescanned_after_searches")
+        acc.count("bytes_scanned", len(raw_after))
+        for w in keywords:
+            if w in raw_after:
+                acc.violation(f"{short}:keyword-in-index:after-searches", f"{scheme}: after a few searches on the index "
+                              f"object, EDB.serialize() contains a stored keyword verbatim", dict(case, keyword=w))
+                return True
+        if scheme != "CGKO06.SSE2":
+            for i in ids:
+                if i in raw_after:
+                    acc.violation(f"{short}:identifier-in-index:after-searches",
+                                  f"{scheme}: after a few searches on the index object, EDB.serialize() contains a stored "
+                                  f"identifier verbatim ({len(raw_after) - len(raw1):+d} bytes compared with the fresh index)",
+                                  dict(case, identifier=i))
+                    return True
     # (b), (c) randomized encryption
     if scheme != "CGKO06.SSE2":
         u1 = cipher_units(scheme, sch, edb1)
@@ -283,6 +308,64 @@ BIG_BLOCKS = {
 }
 
 
+class _ListSub(list):
+    pass
+
+
+CONTAINERS = {
+    "tuple": tuple, "list-subclass": _ListSub, "one-shot-iterator": iter, "generator": lambda l: (x for x in l),
+    "map-object": lambda l: map(bytes, l), "dict-keys-view": lambda l: dict.fromkeys(l).keys(),
+}
+
+
+def run_containers(scheme, acc, ctx, rounds):
+    """Posting lists handed over in other containers than a list (tuple, list subclass, one-shot iterator, generator, map
+    object, keys view).  A scheme may refuse such a database; if it ACCEPTS it, the index must not contain the
+    identifiers or keywords and must answer with the posting lists."""
+    short = gen.SHORT[scheme]
+    L = sse.loader(scheme)
+    rng = ctx.rng
+    for r in range(rounds):
+        cfg = gen.default_config(scheme)
+        if scheme == "CGKO06.SSE1":
+            cfg.update(param_s=64, param_dictionary_size=16)
+        cfg["param_identifier_size"] = 8 if "param_identifier_size" in cfg else None
+        if cfg["param_identifier_size"] is None:
+            del cfg["param_identifier_size"]
+        try:
+            base, info = gen.db_from_lens(rng, scheme, cfg, [3, 2, 5, 1], "containers", kw_min=8, kw_max=16)
+        except ValueError:
+            continue
+        if scheme == "CGKO06.SSE2":
+            cfg["param_n"] = len({i for v in base.values() for i in v}) + 1
+        for cname, make in CONTAINERS.items():
+            db = {w: make(list(v)) for w, v in base.items()}
+            acc.count("container_cases")
+            try:
+                sch = L.SSEScheme(copy.deepcopy(cfg))
+                key = sch.KeyGen()
+                edb = sch.EDBSetup(key, db)
+                raw = edb.serialize()
+            except Exception:
+                acc.count("container_cases.refused")
+                continue
+            acc.count("container_cases.accepted")
+            acc.add("containers_accepted", f"{short}:{cname}")
+            case = {"scheme": scheme, "cfg": cfg, "db": base, "posting_lists_as": cname, "db_class": "containers"}
+            for w in base:
+                if w in raw:
+                    acc.violation(f"{short}:keyword-in-index:{cname}", f"{scheme}: posting lists handed over as {cname}: a "
+                                                                       f"keyword occurs verbatim in the index", case)
+                    return
+            if scheme != "CGKO06.SSE2":
+                leaked = [i for v in base.values() for i in v if i in raw]
+                if leaked:
+                    acc.violation(f"{short}:identifier-in-index:{cname}",
+                                  f"{scheme}: posting lists handed over as {cname} were accepted and {len(leaked)} of "
+                                  f"{sum(len(v) for v in base.values())} identifiers occur verbatim in the index", case)
+                    return
+
+
 def run_twins(scheme, acc, ctx, rounds):
     """Two fresh interpreters that agree on the wall-clock second, process id, hash seed and environment (vlib.twin)
     build the index of the same (key, database)."""
@@ -331,6 +414,8 @@ def run_shard(spec, acc, ctx):
         run_forked(scheme, acc, ctx, 3 if ctx.tier == "quick" else 25)
     if scheme != "CGKO06.SSE2" and spec["index"] == 1:
         run_twins(scheme, acc, ctx, 2 if ctx.tier == "quick" else 12)
+    if spec["index"] == 1:
+        run_containers(scheme, acc, ctx, 2 if ctx.tier == "quick" else 30)
     if spec["index"] == 0 and scheme in BIG_BLOCKS:
         # blocks of several KiB (one AES message each), both builds by fresh scheme objects
         for over, lens in BIG_BLOCKS[scheme]:
@@ -383,6 +468,19 @@ def run_shard(spec, acc, ctx):
 
 
 def replay(case, acc, ctx):
+    if case.get("posting_lists_as"):
+        L = sse.loader(case["scheme"])
+        sch = L.SSEScheme(copy.deepcopy(case["cfg"]))
+        make = CONTAINERS[case["posting_lists_as"]]
+        acc.count("replayed")
+        try:
+            raw = sch.EDBSetup(sch.KeyGen(), {w: make(list(v)) for w, v in case["db"].items()}).serialize()
+        except Exception as e:
+            acc.note(f"refused in replay: {type(e).__name__}")
+            return
+        if any(i in raw for v in case["db"].values() for i in v) or any(w in raw for w in case["db"]):
+            acc.violation(f"{gen.SHORT[case['scheme']]}:identifier-in-index:{case['posting_lists_as']}", "replayed", case)
+        return
     if case.get("db_class") == "twins":
         from vlib import twin
         sch = sse.loader(case["scheme"]).SSEScheme(case["cfg"])
@@ -422,6 +520,8 @@ def finish(m, tier, seed):
         inc.append(f"only {c.get('entries_compared_within', 0)} ciphertext entries compared")
     if c.get("second_build_by_a_fresh_scheme_object", 0) < 200 or c.get("big_block_cases", 0) < 4:
         inc.append("too few second builds by a fresh scheme object / big-block cases")
+    if c.get("indexes_rescanned_after_searches", 0) < 1000 or c.get("container_cases.accepted", 0) < 10:
+        inc.append("too few indexes re-scanned after searches / too few accepted databases with other containers")
     if c.get("twin_build_pairs", 0) < 8:
         inc.append("fewer than 8 pairs of twin interpreters built an index")
     if c.get("forked_build_pairs", 0) < 8 or c.get("builds_after_reseeding_global_random", 0) < 200:
